@@ -108,6 +108,56 @@ def dim(operand):
     return None
 
 
+def compare_siblings(rep, fb, r_tests, r_updates, site_side='P'):
+    """multiset comparison of the set tests / set updates of the emitted Promela step with the emitted C step function"""
+    ptext, plines = '', []
+    for w in STEP_WRITERS:
+        f = fb.fn('uscxml::ChartToPromela::' + w)
+        t, ls = literal_text(f, fb)
+        plines += [(l, s_, w) for l, s_ in ls]
+    ctext, info = C04.reconstruct(fb, rep, 'USCXML_NR_STATES_TYPE')
+    if 'int uscxml_step' not in ctext:
+        raise AnalysisBroken('reconstructed C: uscxml_step not found')
+    cstep = ctext[ctext.index('int uscxml_step'):]
+    # ---- R06.2 / R06.4
+    P = collections.Counter()
+    psite = {}
+    for line, src, w in plines:
+        for m in P_RE.finditer(line):
+            neg, fam, op, args = m.groups()
+            key = (op, tuple(norm(a) for a in args.split(',')), bool(neg) if op.startswith('HAS') else None)
+            P[key] += 1
+            psite.setdefault(key, 'src/uscxml/transform/ChartToPromela.cpp:%s' % src)
+    C = collections.Counter()
+    for m in C_RE.finditer(cstep):
+        neg, fn, args = m.groups()
+        a = [norm(x) for x in args.split(',')][:-1]
+        C[(CMAP[fn], tuple(a), bool(neg) if fn.startswith('bit_has') else None)] += 1
+    rep.minimum(r_tests, sum(1 for k in C if k[0].startswith('HAS')), 6, 'set tests in the emitted C step function')
+    rep.minimum(r_updates, sum(1 for k in C if not k[0].startswith('HAS')), 20, 'set updates in the emitted C step function')
+
+    def accepted(side, key):
+        k = (side, key[0], key[1]) if key[2] is None else (side, key[0], key[1], key[2])
+        return k in ACCEPTED
+    for key in sorted(set(C) | set(P), key=str):
+        rule = r_tests if key[0].startswith('HAS') else r_updates
+        what = '%s%s(%s)' % ('!' if key[2] else '', key[0], ', '.join(key[1]))
+        c, p = C.get(key, 0), P.get(key, 0)
+        if c == p:
+            rep.ok(rule, what, 'in both emitted step functions (%d time(s))' % c)
+            continue
+        side = 'C' if c > p else 'P'
+        if accepted(side, key):
+            rep.ok(rule, what, 'accepted difference: ' + ACCEPTED[(side, key[0], key[1]) if key[2] is None else (side, key[0], key[1], key[2])])
+            continue
+        # a polarity flip shows up as the same operands with the other polarity on the other side
+        flip = key[2] is not None and (C.get((key[0], key[1], not key[2]), 0) != P.get((key[0], key[1], not key[2]), 0))
+        rep.fail(rule, what, psite.get(key) or psite.get((key[0], key[1], (not key[2]) if key[2] is not None else None)) or 'src/uscxml/transform/ChartToPromela.cpp',
+                 '%s occurs %d time(s) in the emitted C step function and %d time(s) in the Promela step%s' % (
+                     what, c, p, ': the TEST HAS THE OPPOSITE POLARITY in one of the two templates' if flip else ''))
+
+
+
 def run(rep, tier):
     rep.rule('R06.1', 'macro-family typing of the emitted Promela: STATES_* macros take state-sized bit arrays only, TRANS_* macros transition-sized ones only; a loop variable bounded by USCXML_NUMBER_TRANS subscripts transition-sized arrays and the transition table, one bounded by USCXML_NUMBER_STATES state-sized arrays and the state table')
     rep.rule('R06.2', 'set tests agree with the C sibling: every STATES_HAS_AND / STATES_HAS_ANY test of the Promela step has the operands and the polarity of the corresponding bit_has_and / bit_has_any test of the emitted C step function, and vice versa')
@@ -176,41 +226,7 @@ def run(rep, tier):
     rep.minimum('R06.1', nsub, 25, 'subscripts with a bounded loop variable in the step writers')
 
     # ---- R06.2 / R06.4
-    P = collections.Counter()
-    psite = {}
-    for line, src, w in plines:
-        for m in P_RE.finditer(line):
-            neg, fam, op, args = m.groups()
-            key = (op, tuple(norm(a) for a in args.split(',')), bool(neg) if op.startswith('HAS') else None)
-            P[key] += 1
-            psite.setdefault(key, 'src/uscxml/transform/ChartToPromela.cpp:%s' % src)
-    C = collections.Counter()
-    for m in C_RE.finditer(cstep):
-        neg, fn, args = m.groups()
-        a = [norm(x) for x in args.split(',')][:-1]
-        C[(CMAP[fn], tuple(a), bool(neg) if fn.startswith('bit_has') else None)] += 1
-    rep.minimum('R06.2', sum(1 for k in C if k[0].startswith('HAS')), 6, 'set tests in the emitted C step function')
-    rep.minimum('R06.4', sum(1 for k in C if not k[0].startswith('HAS')), 20, 'set updates in the emitted C step function')
-
-    def accepted(side, key):
-        k = (side, key[0], key[1]) if key[2] is None else (side, key[0], key[1], key[2])
-        return k in ACCEPTED
-    for key in sorted(set(C) | set(P), key=str):
-        rule = 'R06.2' if key[0].startswith('HAS') else 'R06.4'
-        what = '%s%s(%s)' % ('!' if key[2] else '', key[0], ', '.join(key[1]))
-        c, p = C.get(key, 0), P.get(key, 0)
-        if c == p:
-            rep.ok(rule, what, 'in both emitted step functions (%d time(s))' % c)
-            continue
-        side = 'C' if c > p else 'P'
-        if accepted(side, key):
-            rep.ok(rule, what, 'accepted difference: ' + ACCEPTED[(side, key[0], key[1]) if key[2] is None else (side, key[0], key[1], key[2])])
-            continue
-        # a polarity flip shows up as the same operands with the other polarity on the other side
-        flip = key[2] is not None and (C.get((key[0], key[1], not key[2]), 0) != P.get((key[0], key[1], not key[2]), 0))
-        rep.fail(rule, what, psite.get(key) or psite.get((key[0], key[1], (not key[2]) if key[2] is not None else None)) or 'src/uscxml/transform/ChartToPromela.cpp',
-                 '%s occurs %d time(s) in the emitted C step function and %d time(s) in the Promela step%s' % (
-                     what, c, p, ': the TEST HAS THE OPPOSITE POLARITY in one of the two templates' if flip else ''))
+    compare_siblings(rep, fb, 'R06.2', 'R06.4')
 
     # ---- R06.3
     wf = fb.fn('uscxml::ChartToPromela::writeFSM')
